@@ -55,9 +55,19 @@ def streams(alphabet, maxlen):
             yield list(s)
 
 
-def events(data, start=0):
-    """simple events: id = ts = position"""
-    return [(start + i, start + i, 0, d, 0, 0) for i, d in enumerate(data)]
+def events(data, start=0, ts=None):
+    """simple events: id = position; ts = position unless an assignment of (distinct) timestamps is given -
+    events carry their own timestamps, so arrival order and timestamp order need not agree"""
+    return [(start + i, start + (i if ts is None else ts[i]), 0, d, 0, 0) for i, d in enumerate(data)]
+
+
+def shuffled_ts(rng, n):
+    """distinct timestamps 0..n-1 in an order that is mostly increasing with a few late arrivals"""
+    ts = list(range(n))
+    for _ in range(rng.randint(1, max(1, n // 2))):
+        i, j = rng.randrange(n), rng.randrange(n)
+        ts[i], ts[j] = ts[j], ts[i]
+    return ts
 
 
 VARIANTS = [  # (pre, halt, single)
@@ -85,10 +95,12 @@ def rand_pred(rng, nblocks, depth=0):
         return ("hsz", rng.randint(0, 4))
     if c < 0.86:
         return ("gsz", rng.randint(0, 3), rng.randint(0, 2))
-    if c < 0.93:
+    if c < 0.92:
         return ("lastplus", rng.randint(0, 3), rng.choice([0, 1, -1]))
-    if c < 0.97:
+    if c < 0.955:
         return ("tsgap", rng.randint(0, 4))
+    if c < 0.985:
+        return ("tsfirst", rng.randint(1, 6))
     return ("const", rng.random() < 0.5)
 
 
